@@ -84,7 +84,8 @@ PROP = dict(
          "or above it away from the preamble end) are excluded and counted in path_histogram",
     rule="case = one (len, d, letter, noise, [fs]) call of finddelay / gccphat; one (N, d) of delayseq; one (n, idx, cyclic, "
          "triple) of peakloc; one stream (preamble, end frame, offset, floor, amplitude) of the detector = 8 detector objects "
-         "(4 thresholds x 2 framings) run over 4 frames each. Non-trivial = d != 0 (estimators), 0 < |d| < N (delayseq), every "
+         "(4 thresholds x 2 framings) run over 4 frames each; for detector.reset the same after a history (earlier traffic + reset()) "
+         "applied to each of the 8 objects. Non-trivial = d != 0 (estimators), 0 < |d| < N (delayseq), every "
          "peakloc triple, every stream with a preamble or a noise floor",
     bounds=dict(
         quick="finddelay (real, complex) and gccphat (fs 1, 8000, 48000): len {128,129,200,256,500} x every d in [-len/4, len/4], "
@@ -93,10 +94,13 @@ PROP = dict(
               "cyclic on/off, every triple over {-2,-1,0,1,2,5} with curvature != 0; detector: Zadoff-Chu {17,31,63,64,127,139,256,512} "
               "x roots {1,5} and m-sequences {31,63,127,255,511}; preamble end at every offset modulo frame_len (length <= 64) or 32 "
               "offsets incl. 0,1,frame_len-1 and around nh (longer), in frame 1 of 4; silence / -40 dB floor; amplitudes 1e-3,1,1e3; "
-              "thresholds 0.3,0.5,0.7,0.9; 1 and 2 frames per call; streams without preamble",
+              "thresholds 0.3,0.5,0.7,0.9; 1 and 2 frames per call; streams without preamble; reset histories on one detector object: "
+              "{a: 4-frame stream with a preamble at another offset, b: 4 frames of noise at the preamble's power, c: one frame ending "
+              "in the middle of a preamble, d: nothing} then reset() then a preamble stream, for every preamble x end offsets "
+              "{0, nh/2, nh-1, frame_len-1} x silence / floor x 3 amplitudes x 4 thresholds x 2 framings",
         thorough="estimators: every len in 128..512 and {1000,1001,2048,5000} x every d in [-len/4, len/4], same letters/noise/fs; "
                  "delayseq N <= 40; peakloc n 3..8, triples over {-5,-2,-1,0,1,2,3,5}; detector: every offset modulo frame_len for "
-                 "every preamble, preamble ending in frame 1 and in frame 2"),
+                 "every preamble, preamble ending in frame 1 and in frame 2; reset histories a-d at the 32 boundary/spread offsets per preamble"),
     deadline=dict(quick=150, thorough=1500),
     assumptions=COMMON_ASSUME + [
         "white signal = fixed deterministic letters (sum of 4 LCG uniforms, unit variance); noise = another such letter 30 / 40 dB below",
@@ -106,5 +110,8 @@ PROP = dict(
         "(its n-1 normalisation belongs to C17); score must be within 1e-9 of the reference and in [0.95, 1]; frame = the argument of one "
         "process() call (1 or 2 multiples of frame_len())",
         "the returned preamble is compared bit-exactly with the received stream samples (transmitted preamble + floor)",
+        "reset(): the header gives no contract; it is read as 'afterwards the object handles a stream like a freshly constructed "
+        "detector', checked with the same oracle and tolerances as a fresh object (score within 1e-9, not bit-identical: the moving-average "
+        "recalculation phase is not reset). Earlier traffic has the same amplitude scale as the stream that follows",
     ],
 )
